@@ -149,4 +149,15 @@ def run (h : Server.Handler Mem) (cfg : Client.Cfg) (st : Client.TState) (mem : 
     let y := run h x.2.1 x.2.2.1 x.2.2.2 cs
     (x.1 :: y.1, y.2)
 
+/-- all handler invocations of a history, in order.
+    (Every step starts a server session on an open connection. After a step in which the server
+    closed the connection - only possible when the handler returns `ErrProtocolError`, finding F8 -
+    a real client would have to be re-opened first; the harness does that.) -/
+def runCalls (h : Server.Handler Mem) (cfg : Client.Cfg) (st : Client.TState) (mem : Mem) :
+    List Cmd → List Server.HReq
+  | [] => []
+  | c :: cs =>
+    let x := exec h cfg st mem c
+    (match c with | .op o => stepCalls h cfg st mem o | _ => []) ++ runCalls h x.2.1 x.2.2.1 x.2.2.2 cs
+
 end Modbus.System
